@@ -19,7 +19,7 @@ import z3
 
 from pyvc import builtins_model as B
 from pyvc.theory import Theory
-from pyvc.values import Obj, SSeq, Unsupported, concrete, fresh_int, to_real, to_z3, z_and, z_eq, z_ite, z_not, z_or, zbool
+from pyvc.values import Obj, PyRaise, SSeq, Unsupported, concrete, fresh_int, to_real, to_z3, z_and, z_eq, z_ite, z_not, z_or, zbool
 from theories import arrays as AR
 from theories import seqs as SQ
 from theories import structs as ST
@@ -60,6 +60,13 @@ def right_spec(axes: SSeq, r, R):
     """R = max(0, max axes - r + 1): R >= 0, every axis < r + R, and R = 0 or some axis = r + R - 1"""
     return z_and(R >= 0, axes.forall(lambda k, e: to_z3(e) < to_z3(r) + R),
                  z_or(R == 0, axes.exists(lambda k, e: to_z3(e) == to_z3(r) + R - 1)))
+
+
+class ContainerTree(ST.StructV):
+    """a pytree that is a Python container (list / dict of arrays): it has none of the array attributes"""
+
+    def py_getattr(self, interp, name):
+        interp.raise_('AttributeError', name)
 
 
 LeafRank = z3.Function('leaf_rank', z3.IntSort(), z3.IntSort())
@@ -117,7 +124,7 @@ def _build(ck):
         S.I.contracts = {CORE_OUTS: outs_contract}
         if form == 3:
             leaves = S.seq('value_leaves', kind='list', sort=ST.Leaf, wrap=ST.LeafV)
-            out = S.call(S.func(f'{BC}.__init__'), [o, ST.StructV(leaves)], {'axis_destination': S.int('axis'), 'in_structure': ins})
+            out = S.call(S.func(f'{BC}.__init__'), [o, ContainerTree(leaves)], {'axis_destination': S.int('axis'), 'in_structure': ins})
             S.oblige('exc', out.raised('ValueError'), tag='pytree-valued-values-refused')
             return
         values, vshape = warr(S, 'values')
@@ -307,6 +314,9 @@ def _build(ck):
             S.I.depth += 1
             try:
                 res = out.value.leaves.get(k)                # runs the leaf function on the generic leaf k
+            except PyRaise as e:
+                S.oblige('exc', False, tag=f'no-exception-in-the-leaf-function-{e.exc.name}')
+                return
             finally:
                 S.I.depth -= 1
             leaf_ok = lambda v: isinstance(v, AR.WArr) and v.op[0] == 'leaf' and z3.eq(z3.simplify(v.op[1]), z3.simplify(leaf_marker))
@@ -353,7 +363,8 @@ def _build(ck):
             return r
         S.I.contracts = {f'{BC}._normalize_axes': na, f'{BC}._reshape_diagonal': rdg,
                          'furax._base.core.AbstractLinearOperator.out_promoted_dtype': lambda *a: dt}
-        o = S.new('DiagonalOperator', _in_structure=ins)
+        values, _ = warr(S, 'values')
+        o = S.new('DiagonalOperator', _in_structure=ins, _diagonal=values, axis_destination=S.seq('axes'))
         out = S.call(S.I.getattr(o, 'as_matrix'), [])
         if not out.normal:
             S.oblige('exc', False, tag=f'no-exception-{out.value.name}')
@@ -371,6 +382,9 @@ def _build(ck):
         S.I.depth += 1           # the comprehension body is evaluated lazily: keep callee contracts in force
         try:
             part = parts.get(k)
+        except PyRaise as e:
+            S.oblige('exc', False, tag=f'no-exception-in-the-per-leaf-block-{e.exc.name}')
+            return
         finally:
             S.I.depth -= 1
         leaf = xs.get(k)
@@ -445,8 +459,11 @@ def build_bounded(ck, T):
                 S.oracle = {'name': 'mv'}
                 S.inputs.update({'leaf_rank': r, 'values_rank': m, 'axis_destination': list(spec) if form == 'tuple' else spec,
                                  'strict': strict})
-                values = AR.EArr.fresh('values', m, S)
-                x = AR.EArr.fresh('x', r, S)
+                # the witness handed to the native oracle is the case itself (ranks, axes, class); the oracle draws the
+                # dimension sizes (so all obligations of one case share one native replay)
+                values = AR.EArr.fresh('values', m)
+                x = AR.EArr.fresh('x', r)
+                S.assume(z_and(*[d >= 1 for d in values.dims + x.dims]))
                 o = Obj(P.cls('DiagonalOperator' if strict else 'BroadcastDiagonalOperator'))
                 o.fields.update(_diagonal=values, axis_destination=spec_axes(spec, m, form), _in_structure=x)
                 out = S.call(S.I.getattr(o, 'mv'), [x])
